@@ -2,8 +2,9 @@
 (* C16 / C17 -- model of one optimal power flow call on the template of OpfDef.tla.                                   *)
 (*                                                                                                                    *)
 (* A state is an abstract configuration cfg (which elements are OPF variables, which limit levels apply, AC or DC,     *)
-(* solver options, cost kind per element, coefficient variant) together with what the specification REQUIRES of the    *)
-(* result, computed from cfg alone:                                                                                    *)
+(* solver options, cost kind per element, coefficient variant, the sequence of dclines with their directions, the      *)
+(* transformer's phase shift, the per-unit base net.sn_mva, an out-of-service element that keeps its cost row) together *)
+(* with what the specification REQUIRES of the result, computed from cfg alone:                                        *)
 (*   req.applicable / req.exact   whether the brute-force optimum over the integer dispatch grid is an oracle for this     *)
 (*                   configuration (radial lossless DC) and whether it is two-sided (linear / convex pwl costs)          *)
 (*   req.gridopt     that optimum (NoOpt: grid infeasible, or not derived in the model because the grid is larger than   *)
@@ -11,29 +12,53 @@
 (*   req.dev         classes in which the objective AS TRANSCRIBED FROM make_objective.py differs from the user's       *)
 (*                   cost function (empty = the code's objective is the user's); used to predict, not to decide         *)
 (*   req.lawdiff     the dcline loss law of the OPF constraint differs from the power-flow law                          *)
+(*   req.focus / req.stratum   the stratum of the configuration space (OpfDef: Focus, CostClass; plus, where the grid    *)
+(*                   oracle is derived, which transformer limit is active at the optimum): the harness samples EVERY     *)
+(*                   stratum                                                                                              *)
 (* TLC enumerates the configurations (Slice "feas": controllable sets x limit levels x AC/DC x cost profiles for C16;  *)
 (* Slice "cost": cost kinds x element types x coefficient variants x limit levels for C17); every dumped state is       *)
 (* instantiated (record Inst(cfg), serialised by OpfInst.tla) and run through the real runopp / rundcopp; OpfObs.tla     *)
 (* evaluates the property clauses on the observations.                                                                  *)
+(* The structural dimensions dcl (beyond one forward line), shift, sn, ghost leave their default in at most MaxDev of    *)
+(* them at a time; configurations that leave it are combined with a reduced set of the limit / option levels.            *)
 EXTENDS OpfDef
 CONSTANTS Slice,            \* "feas" | "cost"
           AcSet, OptSet, MeshSet, DclSet, EgcSet, VbandSet, PlimSet, QlimSet, RateSet, VarSet,
+          ShiftSet, SnSet, GhostSet,
+          MaxDev,           \* at most this many of (dcl, shift, sn, ghost) leave the plain template in one configuration
           CtrlSets,         \* feas: the sets of controllable Flex elements to enumerate
           Profiles,         \* feas: cost profiles to enumerate
           MaxCosted,        \* cost: at most this many elements carry a cost row
           GridModelMax      \* the model derives the grid optimum itself for dispatch grids up to this size (OpfObs always does)
 VARIABLES cfg, req
+ASSUME DclSet \subseteq DclLevels /\ ShiftSet \subseteq {0, 30, 150, 330} /\ GhostSet \subseteq PQ \cup {"none"}
+ASSUME 0 \in ShiftSet /\ 1 \in SnSet /\ "none" \in GhostSet
 
 AllCtrl == [e \in Flex |-> TRUE]
 CtrlOf(S) == [e \in Flex |-> e \in S]
-\* "feas" slice: the cost kinds follow from a profile; only OPF variables get a row
+\* the structural dimensions
+DevOf(x) == (IF x.dcl \in PlainDcl THEN 0 ELSE 1) + (IF x.shift = 0 THEN 0 ELSE 1) + (IF x.sn = 1 THEN 0 ELSE 1)
+            + (IF x.ghost = "none" THEN 0 ELSE 1)
+NewCombos == {x \in [dcl : DclSet, shift : ShiftSet, sn : SnSet, ghost : GhostSet, gfirst : BOOLEAN] :
+                /\ (x.ghost = "none" \/ Slice = "feas") => x.gfirst      \* the order of the cost rows is a matter of the cost slice
+                /\ DevOf(x) <= MaxDev
+                \* a lossy line (known finding of C16, and a loss_mw that the OPF constraint does not convert to per unit) is
+                \* not combined with a deviation of another dimension
+                /\ (x.dcl = "F" => DevOf(x) = 0)
+                /\ (x.sn # 1 => \A k \in 1..Len(DclLines(x.dcl)) : ~DclLossy(DclLines(x.dcl)[k]))
+                \* a phase shift or a ghost has nothing to do with a dcline: combined with the template without one (feas slice;
+                \* in the cost slice the presence of dclines follows from the cost rows)
+                /\ ((Slice = "feas" /\ MaxDev = 1 /\ (x.shift # 0 \/ x.ghost # "none")) => x.dcl = "none")}
+\* "feas" slice: the cost kinds follow from a profile; only OPF variables and the ghost get a row
 ProfileKind(p, e) ==
   CASE p = "lin"  -> "lin"
     [] p = "lin0" -> "lin0"
     [] p = "quad" -> IF Inverted(e) THEN "lin" ELSE "quad0"
     [] p = "pwl"  -> IF Inverted(e) THEN "pwl1" ELSE IF e = "gen" THEN "pwl2" ELSE "pwl3"
-KindOfProfile(p, ctrl, dcl) ==
-  [e \in Et |-> IF (IF e \in PQ THEN ctrl[e] ELSE (e # "dcline" \/ dcl # 0)) THEN ProfileKind(p, e) ELSE "none"]
+GhostKind(k) == IF k = "lin0" THEN "lin" ELSE IF k = "quad0" THEN "quad" ELSE k       \* the same without constant term
+KindOfProfile(p, ctrl, x) ==
+  [e \in Et |-> IF e = x.ghost THEN GhostKind(ProfileKind(p, e))
+                ELSE IF (IF e \in PQ THEN ctrl[e] ELSE (e # "dcline" \/ x.dcl # "none")) THEN ProfileKind(p, e) ELSE "none"]
 \* "cost" slice: every assignment of kinds to at most MaxCosted elements that the code accepts (OpfDef!Valid states the
 \* reasons); the sets are built from admissible parts only, so that no large intermediate set has to be filtered.
 \* (TLC evaluates constant definitions eagerly: each slice's sets are empty in the other slice)
@@ -42,38 +67,57 @@ Compatible(f, S) == LET ks == {f[e] : e \in S} IN ~(ks \cap PwlKinds # {} /\ (ks
 KindVecs == IF Slice # "cost" THEN {} ELSE
             UNION {{[e \in Et |-> IF e \in S THEN f[e] ELSE "none"] : f \in {g \in [S -> Kinds \ {"none"}] : (\A e \in S : g[e] \in AllowedKinds(e)) /\ Compatible(g, S)}} :
                      S \in {T \in SUBSET Et : Cardinality(T) \in 1..MaxCosted}}
-Base == [ac : AcSet, opts : OptSet, mesh : MeshSet, dcl : DclSet, egc : EgcSet, vband : VbandSet, plim : PlimSet,
+Base == [ac : AcSet, opts : OptSet, mesh : MeshSet, egc : EgcSet, vband : VbandSet, plim : PlimSet,
          qlim : QlimSet, rate : RateSet, var : VarSet]
-Ext(b, ctrl, kind) == [ac |-> b.ac, opts |-> b.opts, mesh |-> b.mesh, dcl |-> b.dcl, egc |-> b.egc, vband |-> b.vband,
-                       plim |-> b.plim, qlim |-> b.qlim, rate |-> b.rate, var |-> b.var, ctrl |-> ctrl, kind |-> kind]
+Ext(b, x, ctrl, kind) == [ac |-> b.ac, opts |-> b.opts, mesh |-> b.mesh, dcl |-> x.dcl, egc |-> b.egc, vband |-> b.vband,
+                          plim |-> b.plim, qlim |-> b.qlim, rate |-> b.rate, var |-> b.var, ctrl |-> ctrl, kind |-> kind,
+                          shift |-> x.shift, sn |-> x.sn, ghost |-> x.ghost, gfirst |-> x.gfirst]
 \* levels that cannot influence a DC OPF are fixed there (no voltage magnitudes, no reactive power); the DC problem is an
 \* LP / QP that the default solver options already solve to 1e-7, so the tightened options are enumerated for AC only
 Canon(S) == CHOOSE x \in S : TRUE
 DcOpts == "default"
 Canonical(c) == c.ac \/ (c.vband = Canon(VbandSet) /\ c.qlim = Canon(QlimSet) /\ c.egc = Canon(EgcSet) /\ c.opts = DcOpts)
-FeasBase == {b \in Base : Canonical(b)}
-FeasConfigs == IF Slice # "feas" THEN {} ELSE {Ext(b, CtrlOf(S), KindOfProfile(p, CtrlOf(S), b.dcl)) : b \in FeasBase, S \in CtrlSets, p \in Profiles}
+FullBase == {b \in Base : Canonical(b)}
+\* reduced base for the configurations that leave the plain template: one voltage band, one ext_grid flag; AC with the
+\* tightened options (the sharp check)
+RedOpts == IF "tight" \in OptSet THEN "tight" ELSE Canon(OptSet)
+RedBase == {b \in FullBase : b.vband = Canon(VbandSet) /\ b.egc = Canon(EgcSet) /\ (b.ac => b.opts = RedOpts)}
+BaseOf(x) == IF DevOf(x) = 0 THEN FullBase ELSE RedBase
+FeasConfigs == IF Slice # "feas" THEN {} ELSE
+               UNION {{Ext(b, x, CtrlOf(S), KindOfProfile(p, CtrlOf(S), x)) : b \in BaseOf(x), S \in CtrlSets, p \in Profiles} : x \in NewCombos}
 \* cost slice: a dcline only when it carries a cost (lossless or lossy); AC cases with loose limits (the limit levels matter
 \* for the optimum, which is decided for DC cases only); reactive costs in AC only; controllable = everything, or exactly
-\* the costed elements (the others keep their set points)
-CostBase(k) ==
-  LET dcls == IF k["dcline"] = "none" THEN {0} ELSE DclSet \ {0}
-      hasq == \E e \in Et : k[e] \in QKinds
-      acp == IF TRUE \in AcSet THEN [ac : {TRUE}, opts : OptSet, mesh : MeshSet, dcl : dcls, egc : {Canon(EgcSet)}, vband : {Canon(VbandSet)},
+\* the costed elements (the others keep their set points; plain template only)
+\* configurations that leave the plain template (red): radial, loose ratings, the tightened options only
+RedMesh == IF FALSE \in MeshSet THEN {FALSE} ELSE MeshSet
+RedRate == IF "loose" \in RateSet THEN {"loose"} ELSE RateSet
+CostBase(k, red) ==
+  LET hasq == \E e \in Et : k[e] \in QKinds
+      meshes == IF red THEN RedMesh ELSE MeshSet
+      acp == IF TRUE \in AcSet THEN [ac : {TRUE}, opts : IF red THEN {RedOpts} ELSE OptSet, mesh : meshes, egc : {Canon(EgcSet)}, vband : {Canon(VbandSet)},
                                      plim : {"loose"}, qlim : {Canon(QlimSet)}, rate : {"loose"}, var : VarSet] ELSE {}
-      dcp == IF FALSE \in AcSet /\ ~hasq THEN [ac : {FALSE}, opts : {DcOpts}, mesh : MeshSet, dcl : dcls, egc : {Canon(EgcSet)}, vband : {Canon(VbandSet)},
-                                               plim : PlimSet, qlim : {Canon(QlimSet)}, rate : RateSet, var : VarSet] ELSE {}
+      dcp == IF FALSE \in AcSet /\ ~hasq THEN [ac : {FALSE}, opts : {DcOpts}, mesh : meshes, egc : {Canon(EgcSet)}, vband : {Canon(VbandSet)},
+                                               plim : PlimSet, qlim : {Canon(QlimSet)}, rate : IF red THEN RedRate ELSE RateSet, var : VarSet] ELSE {}
   IN  acp \cup dcp
+CombosOf(k) == {x \in NewCombos : /\ (k["dcline"] = "none") = (x.dcl = "none")
+                                  /\ (x.ghost # "none" => k[x.ghost] \in ZeroAtZeroKinds)}
 CostConfigs == IF Slice # "cost" THEN {} ELSE
-               UNION {UNION {{Ext(b, AllCtrl, k), Ext(b, [e \in Flex |-> k[e] # "none"], k)} : b \in CostBase(k)} : k \in KindVecs}
+               UNION {UNION {UNION {{Ext(b, x, AllCtrl, k)} \cup (IF DevOf(x) = 0 THEN {Ext(b, x, [e \in Flex |-> k[e] # "none"], k)} ELSE {})
+                                      : b \in CostBase(k, DevOf(x) > 0)} : x \in CombosOf(k)} : k \in KindVecs}
 Configs == {c \in (IF Slice = "feas" THEN FeasConfigs ELSE CostConfigs) : Valid(c)}
 
 Pending == [done |-> FALSE]
+DevLevels(c) == <<IF c.dcl \in PlainDcl THEN "-" ELSE c.dcl, c.shift, c.sn, c.ghost>>
 Required(c) ==
-  LET known == GridApplicable(c) /\ Cardinality(Dispatches(c)) <= GridModelMax
-  IN  [done |-> TRUE, applicable |-> GridApplicable(c), exact |-> GridExact(c), gridknown |-> known,
-       gridopt |-> IF known THEN GridOpt(c) ELSE NoOpt,
-       dev |-> DevClasses(c), lawdiff |-> DclPfLawDiffers(c)]
+  LET app == GridApplicable(c)
+      known == app /\ GridSize(c) <= GridModelMax
+      fp == FeasiblePoints(c)                                   \* (evaluated once, and only where `known`)
+      bind == IF known THEN GridBindOf(c, fp) ELSE {}
+  IN  [done |-> TRUE, applicable |-> app, exact |-> GridExact(c), gridknown |-> known,
+       gridopt |-> IF known THEN GridOptOf(fp) ELSE NoOpt,
+       dev |-> DevClasses(c), lawdiff |-> DclPfLawDiffers(c),
+       focus |-> Focus(c), bind |-> bind,
+       stratum |-> <<IF c.ac THEN "ac" ELSE "dc", DevLevels(c), CostClass(c), bind>>]
 
 \* (initial states are generated sequentially by TLC, successor states in parallel: the derivation is an action)
 Init == cfg \in Configs /\ req = Pending
@@ -82,7 +126,7 @@ Next == Run
 
 -----------------------------------------------------------------------------
 (* Model-level statements of the required design (checked by TLC on every configuration)                               *)
-ASSUME \A br \in Branches, l \in {"loose", "tight"} : Cap(br, l) * 100 = Sn(br) * MaxLoading(br, l)   \* integer capacities
+ASSUME \A br \in Branches, l \in {"loose", "tight", "trafo"} : Cap(br, l) * 100 = Sn(br) * MaxLoading(br, l)   \* integer capacities
 \* (1) the objective the solver must be given: only odd-degree coefficients change sign for negative generators; with
 \*     that transformation the solver-side polynomial at pg = -p IS the user's polynomial at p, for every grid power
 ObjectiveConvention ==
@@ -95,11 +139,12 @@ PwlWellFormed ==
   req.done => \A e \in Costed(cfg) : LET row == CostRowOf(cfg, e) IN row.kind = "pwl" =>
       /\ \A k \in 1..(Len(row.pts) - 1) : row.pts[k][2] = row.pts[k + 1][1] /\ row.pts[k][3] < row.pts[k + 1][3]
       /\ \A k \in 1..Len(row.pts) : row.pts[k][1] < row.pts[k][2]
-      /\ row.pts[1][1] <= PLim(e, cfg.plim)[1] /\ row.pts[Len(row.pts)][2] >= PLim(e, cfg.plim)[2]
+      /\ row.pts[1][1] <= PLimOf(cfg, e)[1] /\ row.pts[Len(row.pts)][2] >= PLimOf(cfg, e)[2]
 \* (3) every cost stays inside the fixed-point range of the observations (|cost| < 1000 EUR)
 CostInRange == req.done => CostAbsBound(cfg) < 1000
 \* (4) the transcribed pwl objective of the code equals the user's pwl function wherever the model generates pwl rows
-\*     (single area for negative generators, any number of areas otherwise): a deviation there would be a new finding
+\*     (single area for negative generators -- also for a dcline operated in reverse, whose range [-max_p, 0] lies outside
+\*     the solver-side range of its generator --, any number of areas otherwise): a deviation there would be a new finding
 PwlTranscriptionAgrees ==
   req.done => \A e \in Costed(cfg) : LET row == CostRowOf(cfg, e) IN row.kind = "pwl" =>
       \A p \in PRange(cfg, e) : CodeRowP(row, e, TRUE, p) = UserRowP(row, p)
@@ -107,12 +152,25 @@ PwlTranscriptionAgrees ==
 \*     tight range lies inside the loose one) can only lower it
 GridOptSane ==
   (req.done /\ req.gridknown /\ req.gridopt # NoOpt) =>
-      /\ LET rows == RowsOf(cfg) IN \E d \in Dispatches(cfg) : Feasible(cfg, d) /\ GridCostR(rows, d) = req.gridopt
+      /\ LET rows == RowsOf(cfg) IN \E d \in Dispatches(cfg) : Feasible(cfg, d) /\ GridCostR(rows, NDcl(cfg), d) = req.gridopt
+      /\ req.bind # {}
       /\ LET loose == [cfg EXCEPT !.plim = "loose"]
-         IN  (cfg.plim = "tight" /\ Cardinality(Dispatches(loose)) <= GridModelMax) => GridOpt(loose) <= req.gridopt
+         IN  (cfg.plim = "tight" /\ GridApplicable(loose) /\ GridSize(loose) <= GridModelMax) => GridOpt(loose) <= req.gridopt
 \* (6) the transcription of make_objective.py deviates from the user's functions only in the classes that are recorded as
 \*     findings; a deviation of another kind (e.g. after a change of the transcription) must not pass unnoticed
 NoUnclassifiedDeviation == req.done => req.dev \subseteq {"inverted_poly_c2_c0", "poly_c0_dropped_next_to_pwl", "inverted_qpoly_c2_c0"}
-\* (7) the grid stays within the enumeration budget
-GridSmall == req.done => Cardinality(Dispatches(cfg)) <= 6 * 6 * 6 * 6 * 3
+\* (7) the grid stays within the enumeration budget where the oracle is declared applicable
+GridSmall == req.done => /\ (req.applicable => GridSize(cfg) <= GridMax)
+                         /\ (req.gridknown => GridSize(cfg) = Cardinality(Dispatches(cfg)))
+\* (8) a ghost's cost row is zero where its element stands (p = q = 0), so the user's sum does not depend on the reading of
+\*     "cost of an element that is out of service"; every other cost row belongs to an optimisation variable
+GhostRowVanishes ==
+  req.done => /\ (cfg.ghost # "none" => LET row == CostRowOf(cfg, cfg.ghost) IN row.kind # "none" /\ UserRowP(row, 0) = 0 /\ UserRowQ(row, 0) = 0)
+              /\ \A e \in CostedVars(cfg) : IsVar(cfg, e)
+\* (9) every dcline has a non-empty range on the side of its direction and its set point inside
+DclWellFormed ==
+  req.done => \A k \in 1..NDcl(cfg) : LET l == LineOf(cfg, k) IN
+      /\ l.pmax > 0 /\ l.pset # 0 /\ (l.pset < 0) = l.rev /\ Abs(l.pset) <= l.pmax
+      /\ DclPLim(cfg, k)[1] <= l.pset /\ l.pset <= DclPLim(cfg, k)[2]
+      /\ l.from # l.to /\ l.from \in 1..3 /\ l.to \in 1..3
 =============================================================================
